@@ -62,6 +62,12 @@ func c01Families() []Family {
 	fs = append(fs, Family{Name: "rbac",
 		MS:    NewMSpec().AddR("r", "sub", "obj", "act").AddP("p", "sub", "obj", "act").AddG("g", 2).AddE("e", effAllow).AddM("m", "r", "p", rbacM),
 		Rules: map[string][][]string{"p": pRules[:5]}, Links: map[string][][]string{"g": gRules}, Requests: strReqs(subs, objs, acts)})
+	// 3b RBAC over names whose concatenations coincide (ab+c = a+bc): the g() memo must keep arguments apart
+	fs = append(fs, Family{Name: "rbac-concat-names",
+		MS:    NewMSpec().AddR("r", "sub", "obj", "act").AddP("p", "sub", "obj", "act").AddG("g", 2).AddE("e", effAllow).AddM("m", "r", "p", rbacM),
+		Rules: map[string][][]string{"p": {{"c", "data1", "read"}, {"bc", "data2", "read"}, {"ab", "data2", "read"}}},
+		Links: map[string][][]string{"g": {{"ab", "c"}, {"a", "bc"}, {"a", "b"}, {"b", "c"}}},
+		Requests: strReqs([]string{"ab", "a", "b"}, objs, acts[:1])})
 	// 4 RBAC with resource roles
 	fs = append(fs, Family{Name: "rbac-resource-roles",
 		MS: NewMSpec().AddR("r", "sub", "obj", "act").AddP("p", "sub", "obj", "act").AddG("g", 2).AddG("g2", 2).AddE("e", effAllow).
@@ -285,7 +291,7 @@ func runC01(c *Ctx) {
 		maxRules, maxLinks = 3, 3
 	}
 	c.Exhaustive = true
-	c.Rule = fmt.Sprintf("14 model families (ACL, superuser, RBAC, resource roles, domains, deny-override, allow-and-deny, priority, ABAC attributes, eval() rules, keyMatch/regexMatch, in-operator, EnforceContext with two policy types, negation) x all policies of <= %d rules (ordered sequences for priority) x all grouping sets of <= %d links over the family's universe x all requests of its universe (bounded-exhaustive), plus seeded random models/matchers/graphs; reference = Lean specEnforce (no govaluate, effector or role manager); non-trivial = a case with both an allowed and a denied request; distinct = (family, policy, links)", maxRules, maxLinks)
+	c.Rule = fmt.Sprintf("15 model families (ACL, superuser, RBAC, RBAC over names with coinciding concatenations, resource roles, domains, deny-override, allow-and-deny, priority, ABAC attributes, eval() rules, keyMatch/regexMatch, in-operator, EnforceContext with two policy types, negation) x all policies of <= %d rules (ordered sequences for priority) x all grouping sets of <= %d links over the family's universe x all requests of its universe (bounded-exhaustive), plus seeded random models/matchers/graphs; reference = Lean specEnforce (no govaluate, effector or role manager); non-trivial = a case with both an allowed and a denied request; distinct = (family, policy, links)", maxRules, maxLinks)
 	for _, f := range c01Families() {
 		// policies: per ptype subsets (ordered sequences for the priority effect)
 		var polChoices []map[string][][]string
